@@ -65,15 +65,11 @@ for _i, _t, _n in [
     CLAIMS[_i] = dict(cat="model_checking", engine="P", tech=PSMT, ref="DESIGN.md §4 " + _i, text=_t,
                       note=_n + " Event recognition by callee name + source text under the MIR span; paths <= 120 basic blocks.")
 NA = {
- "C03": "Engine P (MIR path/event encoding of Sync::sync, recover, open) is not built in this revision; without it no solver decision over crash points exists here - not claimed.",
- "C04": "Needs engine P (fsync-before-switch-over ordering over the MIR of the sync path); not built in this revision - not claimed.",
+ "C07": "Attempted and measured, not reachable: every harness that runs MultiProof::from_path_proofs + verify_multi_proof under the symbolic hash exceeds 30 GB / 40 min in CBMC's symbolic execution even when a single path proof of the empty trie is aggregated (Vec-heavy bisection code with symbolic lengths); the multi-proof verifier alone needs ~20 min / 24 GB per 2-path run. The harnesses (kani/core-harness/src/c07.rs) are kept but not claimed.",
  "C09": "Rollback composes reverse deltas across commits through the segmented log, DashMap, thread pools and files; not encodable by Kani/CBMC or as an SMT kernel.",
  "C10": "Close/reopen is file I/O end to end (Store::open, reconstruction, free-list read, WAL replay); nothing a solver can execute symbolically decides it.",
  "C11": "Overlay chains are imbl maps, HashMaps with random state, Arc/Weak graphs and atomics plus the whole merkle stack; out of reach of the available engines.",
- "C12": "Needs engine P (effect-before-check ordering in the commit entry points); not built in this revision - not claimed.",
- "C14": "Needs engine P (fault-schedule encoding of the sync path); not built in this revision - not claimed.",
  "C15": "Thread interleavings of parking_lot locks/condvars; Kani does not model concurrency and no SMT encoding of the locks is within reach.",
- "C17": "Needs engine P (pre-switch-over write targets) plus allocator kernels; not built in this revision - not claimed.",
  "C19": "Needs an accounting observer over whole histories (free-list pages, bump pointers, bucket counters across syncs); single-step pieces do not decide it.",
  "C20": "Mechanism is an OS advisory lock (flock via libc FFI) and process lifetime; no code to execute symbolically.",
 }
@@ -81,7 +77,7 @@ props = [json.loads(l) for l in open("/verif/properties.jsonl")]
 checks, na = [], []
 for p in props:
     i = p["id"]
-    if i in CLAIMS and i in registry.PROPERTIES:
+    if i in CLAIMS and i in registry.PROPERTIES and i not in NA:
         c = CLAIMS[i]
         checks.append({"property_id": i, "quick_cmd": "python3-vt run.py %s --tier quick" % i,
                        "thorough_cmd": "python3-vt run.py %s --tier thorough" % i,
